@@ -225,7 +225,7 @@ pub fn build_set(i: usize, thorough: bool) -> SetSpec {
         },
         1 => SetSpec {
             set: InputSet { name: "all byte strings of length 3".into(), kind: SetKind::AllBytes { min_len: 3, max_len: 3 } },
-            mask: if thorough { ALL_TARGETS } else { T_BUF | T_SNIFF | T_INSTR | T_INSTR1 | T_ISNIFF },
+            mask: if thorough { ALL_TARGETS } else { T_BUF | T_INSTR | T_ISNIFF },
             batch: if thorough { 16384 } else { 65536 },
         },
         2 => SetSpec {
@@ -250,7 +250,10 @@ pub fn build_set(i: usize, thorough: bool) -> SetSpec {
             batch: 8,
         },
         _ => {
-            let seeds = seeds::onnx_seeds();
+            let mut seeds = seeds::onnx_seeds();
+            if !thorough {
+                seeds.retain(|s| ["raw", "typed", "sub"].contains(&s.name));
+            }
             let plan = if thorough { FaultPlan::all_bytes() } else { FaultPlan::standard() };
             let mut faults = Vec::new();
             for (i, s) in seeds.iter().enumerate() {
@@ -383,7 +386,7 @@ fn run_instrumented(bytes: &[u8], chunk: usize, sniff: bool) -> InstrResult {
     let out = if sniff {
         match drv::catch(|| is_onnx_model(ValueReader::new(ReadPos::new(r)))) {
             Ok(true) => Out::Ok,
-            Ok(false) => Out::Err("false".into()),
+            Ok(false) => Out::Err("false"),
             Err(p) => Out::Panic(p),
         }
     } else {
@@ -403,12 +406,21 @@ fn run_instrumented(bytes: &[u8], chunk: usize, sniff: bool) -> InstrResult {
     }
 }
 
+/// Does the decoder (resp. the file-type sniffer) exceed the linear budget on
+/// `bytes`? Used by C05 to avoid handing non-terminating inputs to Model::load.
+pub fn budget_trips(bytes: &[u8]) -> (bool, bool, bool) {
+    let a = run_instrumented(bytes, usize::MAX, false);
+    let b = run_instrumented(bytes, usize::MAX, true);
+    let backward = (a.tripped && a.neg_seeks > 0) || (b.tripped && b.neg_seeks > 0);
+    (a.tripped, b.tripped, backward)
+}
+
 // ------------------------------------------------------------ evaluation
 
 #[derive(Clone, Debug)]
 enum Out {
     Ok,
-    Err(String),
+    Err(&'static str),
     Panic(PanicInfo),
 }
 
@@ -416,18 +428,69 @@ impl Out {
     fn key(&self) -> String {
         match self {
             Out::Ok => "Ok".into(),
-            Out::Err(k) => format!("Err({k})"),
+            Out::Err(k) => k.to_string(),
             Out::Panic(p) => format!("PANIC({})", p.norm_msg()),
         }
     }
 }
 
-fn err_kind(e: &ProtobufError) -> String {
+fn err_kind(e: &ProtobufError) -> &'static str {
     match e.kind() {
-        ErrorKind::IoError(io) => format!("Io:{:?}", io.kind()),
-        k => {
-            let s = format!("{k:?}");
-            s.split('(').next().unwrap_or("").to_string()
+        ErrorKind::IoError(io) => match io.kind() {
+            std::io::ErrorKind::UnexpectedEof => "Io:UnexpectedEof",
+            std::io::ErrorKind::InvalidInput => "Io:InvalidInput",
+            std::io::ErrorKind::InvalidData => "Io:InvalidData",
+            std::io::ErrorKind::OutOfMemory => "Io:OutOfMemory",
+            _ => "Io:Other",
+        },
+        ErrorKind::InvalidVarint => "InvalidVarint",
+        ErrorKind::Eof => "Eof",
+        ErrorKind::FieldTypeMismatch => "FieldTypeMismatch",
+        ErrorKind::FieldLengthMismatch => "FieldLengthMismatch",
+        ErrorKind::InvalidWireType => "InvalidWireType",
+        ErrorKind::FieldAlreadyConsumed => "FieldAlreadyConsumed",
+        ErrorKind::InvalidUtf8 => "InvalidUtf8",
+        ErrorKind::FieldNotConsumed => "FieldNotConsumed",
+        _ => "OtherKind",
+    }
+}
+
+fn load_err_kind(e: &rten::LoadError) -> &'static str {
+    use rten::LoadErrorKind as K;
+    match e.kind() {
+        K::IoError => "IoError",
+        K::ParseError => "ParseError",
+        K::OperatorInvalid => "OperatorInvalid",
+        K::GraphError => "GraphError",
+        K::OptimizeError => "OptimizeError",
+        K::ShapeInferenceFailed => "ShapeInferenceFailed",
+        K::UnknownFileType => "UnknownFileType",
+        K::ExternalDataError => "ExternalDataError",
+        K::FormatNotEnabled => "FormatNotEnabled",
+        _ => "Other",
+    }
+}
+
+/// Histogram with static keys for the hot path (17 M tiny inputs).
+#[derive(Default)]
+struct FastHist {
+    v: Vec<((&'static str, &'static str), u64)>,
+}
+
+impl FastHist {
+    #[inline]
+    fn add(&mut self, a: &'static str, b: &'static str) {
+        for e in self.v.iter_mut() {
+            if std::ptr::eq(e.0.0, a) && std::ptr::eq(e.0.1, b) {
+                e.1 += 1;
+                return;
+            }
+        }
+        self.v.push(((a, b), 1));
+    }
+    fn flush(&mut self, acc: &mut BatchAcc) {
+        for ((a, b), n) in self.v.drain(..) {
+            *acc.hist.entry(format!("{a}: {b}")).or_insert(0) += n;
         }
     }
 }
@@ -481,6 +544,7 @@ type BatchAcc = drv::Acc;
 
 struct WorkerState {
     memfile: MemFile,
+    fh: FastHist,
 }
 
 /// Evaluate one input through the entry points in `mask`.
@@ -570,10 +634,7 @@ fn eval(ws: &mut WorkerState, bytes: &[u8], idx: u64, mask: u64, force_real: boo
         let data = bytes.to_vec();
         let out = match drv::catch(|| rten::Model::load(data)) {
             Ok(Ok(_)) => Out::Ok,
-            Ok(Err(e)) => {
-                let s = format!("{e:?}");
-                Out::Err(s.split(['(', ' ', '{']).next().unwrap_or("").to_string())
-            }
+            Ok(Err(e)) => Out::Err(load_err_kind(&e)),
             Err(p) => Out::Panic(p),
         };
         results.push((T_LOAD, out));
@@ -594,7 +655,11 @@ fn eval(ws: &mut WorkerState, bytes: &[u8], idx: u64, mask: u64, force_real: boo
     };
     results.sort_by_key(|(t, _)| *t);
     for (t, out) in &results {
-        *acc.hist.entry(format!("{}: {}", target_name(*t), out.key())).or_insert(0) += 1;
+        match out {
+            Out::Ok => ws.fh.add(target_name(*t), "Ok"),
+            Out::Err(k) => ws.fh.add(target_name(*t), k),
+            Out::Panic(_) => *acc.hist.entry(format!("{}: {}", target_name(*t), out.key())).or_insert(0) += 1,
+        }
         match out {
             Out::Panic(p) => {
                 if *t == T_LOAD && p.short_file().starts_with("src/") {
@@ -621,7 +686,7 @@ fn eval(ws: &mut WorkerState, bytes: &[u8], idx: u64, mask: u64, force_real: boo
     if let Some(s) = &sniff {
         match s {
             Ok(b) => {
-                *acc.hist.entry(format!("is_onnx_model: {b}")).or_insert(0) += 1;
+                ws.fh.add("is_onnx_model", if *b { "true" } else { "false" });
                 if *b {
                     if let Some(o) = slim.must_err() {
                         flag(sig_accept(o), "is_onnx_model", format!("returned true although {}", describe_overlong(o)));
@@ -635,7 +700,11 @@ fn eval(ws: &mut WorkerState, bytes: &[u8], idx: u64, mask: u64, force_real: boo
         }
     }
     if let Some(o) = &isniff {
-        *acc.hist.entry(format!("{}: {}", target_name(T_ISNIFF), o.key())).or_insert(0) += 1;
+        match o {
+            Out::Ok => ws.fh.add(target_name(T_ISNIFF), "true"),
+            Out::Err(k) => ws.fh.add(target_name(T_ISNIFF), k),
+            Out::Panic(_) => *acc.hist.entry(format!("{}: {}", target_name(T_ISNIFF), o.key())).or_insert(0) += 1,
+        }
         match o {
             Out::Ok => {
                 if let Some(ov) = slim.must_err() {
@@ -676,9 +745,10 @@ pub fn worker() -> ! {
         if let Some(h) = req["explicit"].as_str() {
             let bytes = unhex(h);
             let mut body = |_from: u64, _to: u64, prog: &drv::Progress| -> Json {
-                let mut ws = WorkerState { memfile: MemFile::new() };
+                let mut ws = WorkerState { memfile: MemFile::new(), fh: FastHist::default() };
                 let mut acc = BatchAcc::default();
                 eval(&mut ws, &bytes, 0, mask, force_real, prog, &mut acc, false);
+                ws.fh.flush(&mut acc);
                 acc.to_json()
             };
             return drv::supervised_answer(&sup, 0, 0, 1, case_timeout, &|_| false, &mut body);
@@ -692,13 +762,14 @@ pub fn worker() -> ! {
         let spec = set_for(set, thorough);
         let want_hash = !matches!(spec.set.kind, SetKind::AllBytes { .. } | SetKind::Alphabet { .. });
         let mut body = |from: u64, to: u64, prog: &drv::Progress| -> Json {
-            let mut ws = WorkerState { memfile: MemFile::new() };
+            let mut ws = WorkerState { memfile: MemFile::new(), fh: FastHist::default() };
             let mut acc = BatchAcc::default();
             let mut buf = Vec::new();
             for idx in from..to.min(spec.set.len()) {
                 spec.set.fill(idx, &mut buf);
                 eval(&mut ws, &buf, idx, mask, force_real, prog, &mut acc, want_hash);
             }
+            ws.fh.flush(&mut acc);
             acc.to_json()
         };
         // performance hint: cases that will probably kill their process get a child of their own
@@ -894,7 +965,7 @@ pub fn run(ctx: Ctx) -> ! {
             ctx.machinery("C38: vacuous run (no input reached the oracle)");
         }
         let ok_seen = hist.iter().any(|(k, v)| k.starts_with("parse_buf: Ok") && *v > 0);
-        let err_seen = hist.iter().any(|(k, v)| k.starts_with("parse_buf: Err") && *v > 0);
+        let err_seen = hist.iter().any(|(k, v)| k.starts_with("parse_buf: ") && !k.ends_with(": Ok") && *v > 0);
         if !ok_seen || !err_seen {
             ctx.machinery("C38: parse_buf never returned both Ok and Err");
         }
